@@ -489,6 +489,19 @@ func c01Reader(p *load.Prog, r *oblig.Run) {
 			}
 		}
 	}
+	if sub, err := relang.Group(pat, lg.pointer); err == nil {
+		// parseLine cuts the cross-reference name out of this group with the fixed slice [1 : len-2]
+		pre, suf, ok := relang.FixedAffixes(sub)
+		o := r.Add("R01.a", "pointer group", pos, "language of the pointer group against the [1:len-2] trimming")
+		switch {
+		case !ok:
+			o.Unknown("pointer group is not literal-prefix, name, literal-suffix")
+		case pre != 1 || suf != 2:
+			o.Fail(fmt.Sprintf("the pointer group has a literal prefix of %d byte(s) and a literal suffix of %d byte(s) around its variable part, but parseLine removes exactly 1 and 2: the pointer of a line the pattern accepts is cut at the wrong place", pre, suf))
+		default:
+			o.OK("'@' name '@ ' - the fixed slice removes exactly the delimiters")
+		}
+	}
 	re := regexp.MustCompile(pat)
 	levels := []string{"0", "9", "10", "99"}
 	ptrs := []string{"", "P1", "a b", "I-1.x"}
